@@ -16,6 +16,7 @@ import (
 	"io"
 	"strings"
 	"testing"
+	"time"
 
 	"github.com/libp2p/go-libp2p/core/host"
 	"github.com/libp2p/go-libp2p/core/network"
@@ -46,7 +47,10 @@ type c13Write struct {
 	Len  *int64 `json:"len,omitempty"`  // raw: explicit length prefix (may lie)
 	// error: produced not by WriteError directly but by a protocol handler returning it through the
 	// node's real stream wrapper (AddStreamHandlers); kind of error the handler returned
-	Via string `json:"via,omitempty"` // "" | status | plain | wrapped-cancel
+	Via string `json:"via,omitempty"` // "" | status | plain | wrapped-cancel | late-read
+	// via the wrapper: the handler has been running for this long when it returns the error (or,
+	// late-read, when it reads the message the remote peer wrote to it)
+	HoldMs int `json:"hold_ms,omitempty"`
 }
 type c13In struct {
 	Tag    string     `json:"tag"`
@@ -138,15 +142,28 @@ func (h *c13Host) SetStreamHandlerMatch(_ protocol.ID, _ func(protocol.ID) bool,
 
 // c13ViaWrapper: a registered peer opens a stream; the protocol handler behind the node's real
 // wrapper returns an error; returns the frames the wrapper wrote after its response header
-func c13ViaWrapper(kind string, code codes.Code, msg string) ([]byte, bool) {
+func c13ViaWrapper(kind string, code codes.Code, msg string, holdMs int, late proto.Message) ([]byte, bool) {
 	fh := &c13Host{}
 	svc := &Service{baseCtx: context.Background(), host: fh, peers: newPeerRegistry(), logger: util.NewTestLogger(io.Discard),
 		metrics: newMetrics(prometheus.NewRegistry(), "verif"), blockMap: make(map[peer.ID]blockInfo)}
 	pid := peer.ID("c13-remote")
 	conn := &c04Conn{pid: pid}
 	svc.peers.addPeer(conn, &p2p.Peer{Type: p2p.PeerTypeBidder})
-	svc.AddStreamHandlers(p2p.StreamDesc{Name: "verif", Version: "1.0.0", Handler: func(context.Context, p2p.Peer, p2p.Stream) error {
+	var lateRead []byte
+	svc.AddStreamHandlers(p2p.StreamDesc{Name: "verif", Version: "1.0.0", Handler: func(ctx context.Context, _ p2p.Peer, st p2p.Stream) error {
+		time.Sleep(time.Duration(holdMs) * time.Millisecond)
 		switch kind {
+		case "late-read":
+			// what the handler reads of the peer's message is handed back as a frame of its own
+			m := late.ProtoReflect().New().Interface()
+			if err := st.ReadMsg(ctx, m); err != nil {
+				return nil
+			}
+			var b c13Buf
+			if newStream(&b, nil, nil).WriteMsg(context.Background(), m) == nil {
+				lateRead = b.Bytes()
+			}
+			return nil
 		case "plain":
 			return errors.New(msg)
 		case "wrapped-cancel":
@@ -156,8 +173,20 @@ func c13ViaWrapper(kind string, code codes.Code, msg string) ([]byte, bool) {
 	}})
 	var hdr c13Buf
 	_ = newMetadataStream(&hdr).WriteHeader(context.Background(), p2p.Header{})
+	if late != nil {
+		_ = newStream(&hdr, nil, nil).WriteMsg(context.Background(), late)
+	}
 	ls := &c04Stream{rd: bytes.NewReader(hdr.Bytes()), conn: conn, writeFail: -1}
 	fh.handler(ls)
+	if kind == "late-read" {
+		return lateRead, len(lateRead) > 0
+	}
+	if holdMs > 0 {
+		time.Sleep(20 * time.Millisecond)
+	}
+	if ls.reset {
+		return nil, false // a reset stream delivers nothing more to its reader
+	}
 	out := ls.wr.Bytes()
 	// skip the response header frame
 	if len(out) < 4 {
@@ -239,6 +268,15 @@ func c13Run(in c13In, rng *vrng) (obs c13Obs) {
 					continue
 				}
 			}
+			if wr.Via == "late-read" {
+				frame, ok := c13ViaWrapper(wr.Via, 0, "", wr.HoldMs, m)
+				if !ok {
+					obs.WriteErr = append(obs.WriteErr, "handler could not read the message written to it")
+				}
+				w.Write(frame)
+				types = append(types, wr.Ty)
+				continue
+			}
 			if err := ws.WriteMsg(ctx, m); err != nil {
 				obs.WriteErr = append(obs.WriteErr, err.Error())
 			}
@@ -246,7 +284,7 @@ func c13Run(in c13In, rng *vrng) (obs c13Obs) {
 		case "error":
 			mb, _ := hex.DecodeString(wr.Msg)
 			if wr.Via != "" {
-				frame, ok := c13ViaWrapper(wr.Via, codes.Code(wr.Code), string(mb))
+				frame, ok := c13ViaWrapper(wr.Via, codes.Code(wr.Code), string(mb), wr.HoldMs, nil)
 				if !ok {
 					obs.WriteErr = append(obs.WriteErr, "wrapper wrote no error frame")
 				}
@@ -423,6 +461,28 @@ func TestVerifC13(t *testing.T) {
 		in := c13In{Tag: "handler-error", Writes: []c13Write{{T: "error", Code: 2, Msg: hexs(m), Via: "plain"}}, Chunk: 0}
 		out.emit(in, c13Run(in, rng))
 		in = c13In{Tag: "handler-error", Writes: []c13Write{{T: "error", Code: 2, Msg: hexs(m + ": context canceled"), Via: "wrapped-cancel"}}, Chunk: 0}
+		out.emit(in, c13Run(in, rng))
+	}
+	// slow handlers: the verdict comes, or the peer's message is read, after the handler has been
+	// running for a while — longer than every real-time bound the package's sources mention
+	holds := []int{300}
+	for _, ms := range c20Timers() {
+		d := ms + 800
+		if ms == 0 {
+			d = 6000
+		}
+		if d <= 25000 {
+			holds = append(holds, d)
+		}
+	}
+	for _, d := range holds {
+		for k := 0; k < 3; k++ {
+			in := c13In{Tag: "slow-handler", Writes: []c13Write{{T: "error", Code: 9, Msg: hexs("late verdict"), Via: "status", HoldMs: d}}, Chunk: 0}
+			out.emit(in, c13Run(in, rng))
+		}
+		lw := msg("bytes", wrapperspb.Bytes([]byte("written early, read late")))
+		lw.Via, lw.HoldMs = "late-read", d
+		in := c13In{Tag: "slow-handler", Writes: []c13Write{lw}, Chunk: 0}
 		out.emit(in, c13Run(in, rng))
 	}
 	// malformed streams
